@@ -275,9 +275,7 @@ def handleRdco (args res : List String) : Verdict :=
     match readDims trunc Nreq Mreq N0 M0, res with
     | none, ["!E"] => .ok
     | none, _ => .bad s!"readcoeffs accepted a header / request the model rejects (N0={N0} M0={M0} request {Nreq} {Mreq} truncate={trunc})"
-    | some (N, M), ["!E"] =>
-      if trunc && Nreq == -1 && Mreq == -1 && N0 ≥ 0 then .skip "reported by the harness (readcoeffs-empty-truncation)"
-      else .bad s!"readcoeffs rejected a block the model reads as degree {N}, order {M}"
+    | some (N, M), ["!E"] => .bad s!"readcoeffs rejected a block the model reads as degree {N}, order {M}"
     | some (N, M), r =>
       match r.mapM (·.toInt?) with
       | some got =>
